@@ -508,7 +508,7 @@ ASSUMPTIONS = [
     "T8 soundness of Verus 0.2026.09.13 + Z3, Kani 0.68 + CBMC 6.11, rustc; usize is 64-bit",
     "T9 file length < 2^62, allocations succeed and never exceed isize::MAX bytes",
     "Dropped from the verified text: doc comments, #[inline]/#[allow] attributes, Debug/serde derives, Display/Error impls, from_path*, parallel.rs",
-    "Rewrites applied mechanically by the extractor and listed per function: R7 for-in-&mut -> iter_mut, R8 for -> loop+next, R9 byte-string literal -> array, R10 assert! -> if/panic, R11 .all(f) -> its loop, R12 `?` -> match/From, R13 named tail, R14 closure tuple parameter, R15 trait impl -> inherent impl (owned-record iterators), R16 .nth(K) unrolled, R17 loop{if c{break}..} -> while !c {..}, R18 `if let P(&LIT) = e {a} else {b}` -> `match e { P(x) if *x == LIT => a, _ => b }`, R19 `s.splitn(n, 'c')` on a str -> trusted wrapper vx_str_splitn(s, n, 'c') whose body is that call; ghost text follows renamed locals (//@local)",
+    "Rewrites applied mechanically by the extractor and listed per function: R7 for-in-&mut -> iter_mut, R8 for -> loop+next, R9 byte-string literal -> array, R10 assert! -> if/panic, R11 .all(f) -> its loop, R12 `?` -> match/From, R13 named tail, R14 closure tuple parameter, R15 trait impl -> inherent impl (owned-record iterators), R16 .nth(K) unrolled, R17 loop{if c{break}..} -> while !c {..}, R18 `if let P(&LIT) = e {a} else {b}` -> `match e { P(x) if *x == LIT => a, _ => b }`, R19 `s.splitn(n, 'c')` on a str -> trusted wrapper vx_str_splitn(s, n, 'c') whose body is that call, R20 Option/Result combinator over an un-annotated closure -> the match it is defined as, R21 `while let Some(p) = x.next()` -> the R8 loop; ghost text follows renamed locals (//@local)",
 ]
 
 
